@@ -55,6 +55,14 @@ Theorem C01_std_outputs_valid : forall pr e outs refs,
 Proof. exact std_outputs_valid. Qed.
 Print Assumptions C01_std_outputs_valid.
 
+(* ActivateProducer, at every height (after NFTStartHeight its outputs are
+   optional but checked): no negative output, ELA asset only. *)
+Theorem C01_activate_outputs_valid : forall pr e outs refs,
+  accept KActivate pr e outs refs = true ->
+  Forall (fun o => 0 <= o_val o /\ o_asset o = true) outs.
+Proof. exact activate_outputs_valid. Qed.
+Print Assumptions C01_activate_outputs_valid.
+
 (* Block side: the (still wrapping) GetTxFee used by checkTxsContext returns
    exactly the fee the checker accepted ... *)
 Theorem C01_fee_map_agrees : forall k pr refs outs f,
@@ -131,7 +139,9 @@ Example C01_nonvacuous :
   check_fee KStd pr [500000000; 100000000] [590000000; 9990000] = Some 10000 /\
   accept KActivate pr false [O 700 true 33 false 0] [300; 400] = true /\
   accept KNone pr true [] [5] = true /\
-  accept KStd pr false [O 590000000 true 33 false 0] [590000099] = false.
+  accept KStd pr false [O 590000000 true 33 false 0] [590000099] = false /\
+  accept KActivate pr false [O 5 true 33 false 0; O (-5) true 33 false 0] [] = false /\
+  accept KActivate pr false [] [] = true.
 Proof. vm_compute. repeat split; reflexivity. Qed.
 
 (* the correspondence checker accepts a correct observation and flags wrong ones *)
